@@ -1756,3 +1756,65 @@ pub fn gen_c08(rng: &mut Rng, d: &mut Dist, _idx: u64) -> Vec<String> {
     out.push("OP poll".into());
     out
 }
+
+/// C17: a large entry of size s against fetch size `base` and retry limit `lim`: s below / equal / between / above;
+/// lim in {0, < s, = s, > s}; the large entry first / middle / last in the log; single- vs multi-partition consumers.
+pub fn gen_c17(rng: &mut Rng, d: &mut Dist, _idx: u64) -> Vec<String> {
+    let multi = rng.chance(1, 2);
+    bump(d, if multi { "multi-partition" } else { "single-partition" });
+    let np = if multi { 2 + rng.below(2) as usize } else { 1 };
+    let mut out = vec![
+        format!("BROKER 1 {} 9092", h("b1")),
+        format!("TOPIC {} {}", h("t"), np),
+    ];
+    for p in 0..np {
+        out.push(format!("LEADER {} {} 1", h("t"), p));
+    }
+    let base: i64 = *rng.pick(&[64i64, 100, 256]);
+    // the victim partition 0: small messages and one large entry
+    let big_val = *rng.pick(&[base as usize / 2, base as usize - 26, base as usize, base as usize * 3, base as usize * 9]);
+    let pos = rng.below(3);
+    bump(d, &format!("large-entry-{}", ["first", "middle", "last"][pos as usize]));
+    let mut off = 0i64;
+    let mut small = |out: &mut Vec<String>, off: &mut i64, p: usize, n: u64| {
+        for _ in 0..n {
+            out.push(format!("APPEND {} {} plain {} ~ {:02x}", h("t"), p, off, *off as u8));
+            *off += 1;
+        }
+    };
+    if pos > 0 {
+        small(&mut out, &mut off, 0, 1 + rng.below(3));
+    }
+    let big = raw_msg(off, 0, None, Some(&vec![0xABu8; big_val]), 0);
+    let s = big.len() as i64;
+    out.push(format!("APPENDRAW {} 0 {} {} {}", h("t"), off, off, hex(&big)));
+    off += 1;
+    if pos < 2 {
+        small(&mut out, &mut off, 0, 1 + rng.below(3));
+    }
+    for p in 1..np {
+        let mut o = 0i64;
+        small(&mut out, &mut o, p, 2 + rng.below(4));
+    }
+    let rel = if s < base { "below-base" } else if s == base { "equal-base" } else { "above-base" };
+    bump(d, &format!("entry-size-{}", rel));
+    let lim: i64 = match rng.below(5) {
+        0 => 0,
+        1 => s - 1,
+        2 => s,
+        3 => s + rng.below(500) as i64,
+        _ => s * 4,
+    };
+    bump(d, &format!("limit-{}", if lim == 0 { "0" } else if lim < s { "below-size" } else if lim == s { "equals-size" } else { "above-size" }));
+    out.push(format!(
+        "OP consumer_create hosts={} topic={} fallback=earliest maxbytes={} retrylimit={}",
+        h("b1:9092"),
+        h("t"),
+        base,
+        lim
+    ));
+    for _ in 0..(14 + rng.below(10)) {
+        out.push("OP poll".into());
+    }
+    out
+}
